@@ -4,16 +4,13 @@
    The laws are proved of the exact specification [own_share_grid] (integer axis-aligned boxes, coordinate
    compression, elementary cells), for ALL finite sets of integer boxes.
 
-   grid_eq_ie_axis_aligned (below) closes the former gap between the two specifications: on integer axis-aligned
+   grid_eq_ie_axis_aligned and own_shares_ie_eq_grid_axis_aligned (below) close the former gap between the two
+   specifications: the whole vector own_shares_ie computes (position-based too_far pre-filter, clips, shoelace,
+   translated normalisation) equals entry by entry the normalised grid shares.  In detail: on integer axis-aligned
    boxes the inclusion-exclusion specification [uncovered] at Qops - iterated Sutherland-Hodgman clips of the boxes'
    rectangles + shoelace, the very function own_shares_ie is built from - IS the grid specification.
 
    PARTIAL (own_share_partial), what really remains:
-     - own_shares_ie selects the boxes it clips with by position (near_pair / near_others: box j is kept for box i
-       unless too_far of the pair, lower index first) and then normalises by area + EPS.  grid_eq_ie_prefiltered
-       (below) shows that dropping ANY boxes that are too_far from b leaves the value; only the list bookkeeping
-       "near_others i = such a filter of the other boxes" and the composition with share_normalise
-       (share_normalise_is_translation) are not assembled into one equation  own_shares_ie = normalised grid shares;
      - the laws of the inclusion-exclusion specification for ROTATED boxes rest on C08's unproved area link
        (clip_area_eq_ref);
      - that geo's sweep-line BooleanOps::difference equals either specification and never fails is not a statement
@@ -91,6 +88,26 @@ Theorem grid_eq_ie_prefiltered :
               (map (fun o => rect_vertices Qops (qbox_of_ibox o)) (filter keep others))
     / box_area Qops (qbox_of_ibox b).
 Proof. exact grid_eq_ie_prefiltered_lemma. Qed.
+
+(* THE WHOLE VECTOR: for every list of valid integer axis-aligned boxes, what the inclusion-exclusion specification
+   own_shares_ie computes on their records (near_others = position-based too_far pre-filter, iterated clips, shoelace,
+   the translated normalisation own / (area + EPS) clamped at 1) equals, entry by entry up to ==, the normalised grid
+   share of each box against all the OTHER boxes ([others_at i bs] = bs without its i-th element) *)
+Theorem own_shares_ie_eq_grid_axis_aligned :
+  forall bs : list ibox, Forall ibox_ok bs ->
+    Forall2 Qeq
+      (own_shares_ie Qops (map qbox_of_ibox bs))
+      (map (fun ib => share_normalise Qops (inject_Z (own_area_grid (snd ib) (others_at (fst ib) bs)))
+                                      (inject_Z (ibox_area (snd ib))))
+           (combine (seq 0 (length bs)) bs)).
+Proof. exact own_shares_ie_eq_grid_lemma. Qed.
+
+(* [others_at] is exactly the list the grid specification pairs each box with (own_shares_grid: everything before the
+   box ++ everything after it) *)
+Theorem own_shares_grid_pairs_each_box_with_the_others :
+  forall bs, own_shares_grid bs =
+             map (fun ib => own_share_grid (snd ib) (others_at (fst ib) bs)) (combine (seq 0 (length bs)) bs).
+Proof. exact own_shares_grid_others. Qed.
 
 (* the tie to the Rust source (gen/ScalarOwnArea.v, regenerated on every run): the normalisation the laws above are
    stated on is the translated  own_share_clamp (own_share_raw b area)  - equal by computation, so a changed formula
